@@ -222,6 +222,16 @@ Section C09.
       (s, Raise (match alternatives hint (row_names s) with _ :: _ :: _ => NotImplementedError | _ => AttributeError end)).
   Proof. exact (strict_blocks_new_attributes pycast arrcast infer name value hint s). Qed.
 
+  (* with strict=True NO operation other than add_attribute (and the first `obj.strict = ...`, which registers that property) creates a
+     non-variable attribute - whole-series / item / bulk / values assignments included: the registry is what it was and every
+     attribute entry afterwards was there before or belongs to a name registered before *)
+  Theorem C09_strict_creates_nothing o s :
+    strict s = true -> in_scope (kind s) o ->
+    (forall n v, o <> AddAttribute n v) -> (forall v h, o <> SetAttr "strict" v h) ->
+    registry (fst (step o s)) = registry s /\
+    (forall x, assoc x (adict (fst (step o s))) <> None -> assoc x (adict s) <> None \/ reg_mem x (registry s) = true).
+  Proof. exact (strict_creates_nothing pycast arrcast infer astype_dt itemseq_exn o s). Qed.
+
   Theorem C09_strict_updates_keep_working name value hint s :
     mem name (index s) = true ->
     setattr pycast arrcast infer name value hint s = setattr_var pycast arrcast name value s /\
@@ -361,6 +371,7 @@ Print Assumptions C09_unknown_name_slice_rejected.
 Print Assumptions C09_replace_values_prefix.
 Print Assumptions C09_values_setter_wrong_shape.
 Print Assumptions C09_strict_blocks_new_attributes.
+Print Assumptions C09_strict_creates_nothing.
 Print Assumptions C09_strict_updates_keep_working.
 Print Assumptions C09_whole_series_ignores_strict.
 Print Assumptions C09_add_variable_ignores_strict.
